@@ -336,7 +336,7 @@ func firstLine(s string) string {
 }
 
 func TestScripts(t *testing.T) {
-	rt.Check(t, 5000, 500000, func(t *rapid.T) {
+	rt.Check(t, 5000, 5000000, func(t *rapid.T) {
 		s := genScript(t)
 		msg, oc := runInBubble(t, s)
 		if msg != "" {
